@@ -438,8 +438,9 @@ inductive Dispatch where
   | unreachable
 deriving DecidableEq, Repr
 
-/-- the `match cmd` of `dispatch_command`: variants with an arm are handed to their handler,
-everything else falls into `_ => unreachable!()` -/
+/-- the `match cmd` of `dispatch_command`: variants with an arm (generated list) are answered by
+their handler / arm; a variant without one would fall into an `unreachable!()` arm (before
+fbe6de4: `Batch`) — or not compile when there is no `_` arm, as now. -/
 def dispatchVariant (v : String) : Dispatch :=
   if Gen.C17.dispatchArms.contains v then .handled else .unreachable
 
